@@ -15,7 +15,7 @@ theorem pidSpecCore : SpecCore PidInv := pidSpec.toSpecCore
 theorem pidLeaf : Leaf PidInv := pidSpecCore.toLeaf
 
 /-- quiet and accounting-preserving computations keep `SI` -/
-theorem SI.pres_quiet {α : Type} {m : M α} (hq : QuietM m) (hp : Pres PidInv m) : Pres SI m :=
+theorem SI.pres_quiet {α : Type} {m : M α} (hq : SQuietM m) (hp : Pres PidInv m) : Pres SI m :=
   fun s h => h.of_quiet (hp s h.pid) (hq s)
 
 /-! ### `Process` objects are never deleted -/
@@ -122,23 +122,23 @@ theorem listed_hasObj {s : State} (h : PidInv s) {u p : Nat} (hl : Listed s u p)
 
 /-! ### quiet writers of the coroutine machinery -/
 
-theorem quiet_freshId (s : State) : Quiet s (freshId s).2 := Quiet.of_eq rfl rfl rfl rfl rfl rfl rfl
-theorem quiet_pushSleeper (sl : Sleeper) (s : State) : Quiet s (pushSleeper sl s).2 := Quiet.of_eq rfl rfl rfl rfl rfl rfl rfl
-theorem quiet_pushTop (t : TopFut) (s : State) : Quiet s (pushTop t s).2 := Quiet.of_eq rfl rfl rfl rfl rfl rfl rfl
-theorem quiet_armTop (t : Nat) (s : State) : Quiet s (armTop t s).2 := Quiet.of_eq rfl rfl rfl rfl rfl rfl rfl
-theorem quiet_finishTop (t : Nat) (v : Val) (s : State) : Quiet s (finishTop t v s).2 := Quiet.of_eq rfl rfl rfl rfl rfl rfl rfl
-theorem quiet_topAddCb (t : Nat) (cb : TopCb) (s : State) : Quiet s (topAddCb t cb s).2 := Quiet.of_eq rfl rfl rfl rfl rfl rfl rfl
-theorem quiet_clearDone (s : State) : Quiet s (clearDone s).2 := Quiet.of_eq rfl rfl rfl rfl rfl rfl rfl
-theorem quiet_setSlot (v : Option String) (s : State) : Quiet s (setSlot v s).2 := quiet_modA _ s
-theorem quiet_setStopping (s : State) : Quiet s (setStopping s).2 := quiet_modA _ s
-theorem quiet_setRestarting (s : State) : Quiet s (setRestarting s).2 := quiet_modA _ s
-theorem quiet_setLoopStop (b : Bool) (s : State) : Quiet s (setLoopStop b s).2 := quiet_modA _ s
-theorem quiet_setSocketEvent (b : Bool) (s : State) : Quiet s (setSocketEvent b s).2 := quiet_modA _ s
-theorem quiet_setSockReady (b : Bool) (s : State) : Quiet s (setSockReady b s).2 := quiet_modA _ s
-theorem quiet_setClosed (s : State) : Quiet s (setClosed s).2 := quiet_modA _ s
-theorem quiet_unregister (u : Nat) (s : State) : Quiet s (unregisterWatcher u s).2 := quiet_modA _ s
+theorem squiet_freshId (s : State) : SQuiet s (freshId s).2 := SQuiet.of_eq rfl rfl rfl rfl rfl rfl rfl
+theorem squiet_pushSleeper (sl : Sleeper) (s : State) : SQuiet s (pushSleeper sl s).2 := SQuiet.of_eq rfl rfl rfl rfl rfl rfl rfl
+theorem squiet_pushTop (t : TopFut) (s : State) : SQuiet s (pushTop t s).2 := SQuiet.of_eq rfl rfl rfl rfl rfl rfl rfl
+theorem squiet_armTop (t : Nat) (s : State) : SQuiet s (armTop t s).2 := SQuiet.of_eq rfl rfl rfl rfl rfl rfl rfl
+theorem squiet_finishTop (t : Nat) (v : Val) (s : State) : SQuiet s (finishTop t v s).2 := SQuiet.of_eq rfl rfl rfl rfl rfl rfl rfl
+theorem squiet_topAddCb (t : Nat) (cb : TopCb) (s : State) : SQuiet s (topAddCb t cb s).2 := SQuiet.of_eq rfl rfl rfl rfl rfl rfl rfl
+theorem squiet_clearDone (s : State) : SQuiet s (clearDone s).2 := SQuiet.of_eq rfl rfl rfl rfl rfl rfl rfl
+theorem squiet_setSlot (v : Option String) (s : State) : SQuiet s (setSlot v s).2 := squiet_modA _ s
+theorem squiet_setStopping (s : State) : SQuiet s (setStopping s).2 := squiet_modA _ s
+theorem squiet_setRestarting (s : State) : SQuiet s (setRestarting s).2 := squiet_modA _ s
+theorem squiet_setLoopStop (b : Bool) (s : State) : SQuiet s (setLoopStop b s).2 := squiet_modA _ s
+theorem squiet_setSocketEvent (b : Bool) (s : State) : SQuiet s (setSocketEvent b s).2 := squiet_modA _ s
+theorem squiet_setSockReady (b : Bool) (s : State) : SQuiet s (setSockReady b s).2 := squiet_modA _ s
+theorem squiet_setClosed (s : State) : SQuiet s (setClosed s).2 := squiet_modA _ s
+theorem squiet_unregister (u : Nat) (s : State) : SQuiet s (unregisterWatcher u s).2 := squiet_modA _ s
 
-theorem quiet_fireSleeper (sl : Sleeper) (s : State) : Quiet s (fireSleeper sl s).2 where
+theorem squiet_fireSleeper (sl : Sleeper) (s : State) : SQuiet s (fireSleeper sl s).2 where
   ext := {
     log := fun o h => h
     blocked := fun h => h
@@ -152,12 +152,12 @@ theorem quiet_fireSleeper (sl : Sleeper) (s : State) : Quiet s (fireSleeper sl s
   ready := rfl
 
 /-- a new watcher object (fresh identity, empty `processes`) hides nothing -/
-theorem quiet_registerNew (w : Watcher) (hw : w.pids = []) (s : State) : Quiet s (registerNew w s).2 := by
+theorem squiet_registerNew (w : Watcher) (hw : w.pids = []) (s : State) : SQuiet s (registerNew w s).2 := by
   unfold registerNew registerChecked
   split
-  · exact Quiet.refl s
+  · exact SQuiet.refl s
   · split
-    · exact Quiet.refl s
+    · exact SQuiet.refl s
     · have hfind : ∀ v, ((s.ws ++ [({ clampNp w with uid := s.nextId } : Watcher)]).find? (fun x => decide (x.uid = v))) =
           ((s.ws.find? (fun x => decide (x.uid = v))).or
             (if s.nextId = v then some ({ clampNp w with uid := s.nextId } : Watcher) else none)) := by
@@ -189,7 +189,7 @@ theorem quiet_registerNew (w : Watcher) (hw : w.pids = []) (s : State) : Quiet s
         | some x => rw [hf] at hl; simpa using hl
 
 /-- `Popen()`: the new pid is the pid counter's value, above every pid that has a `Process` object -/
-theorem quiet_spawnAdopt (u wid : Nat) (s : State) (hpid : PidInv s) : Quiet s (spawnAdopt u wid s).2 := by
+theorem squiet_spawnAdopt (u wid : Nat) (s : State) (hpid : PidInv s) : SQuiet s (spawnAdopt u wid s).2 := by
   cases hr : (s.k.spawn).2 with
   | none =>
     rw [spawnAdopt_none u wid s hr]
@@ -271,76 +271,76 @@ theorem quiet_spawnAdopt (u wid : Nat) (s : State) (hpid : PidInv s) : Quiet s (
 /-! ### `Pres SI` for the quiet writers -/
 
 theorem siLeafS : LeafS SI where
-  emit := fun o ho => SI.pres_quiet (quiet_emit o ho) (pidLeafW.emit o)
-  kKill := fun p sg via => SI.pres_quiet (quiet_kKill p sg via) (kKill_pres pidLeafW.toLeafK p sg via)
-  kWaitpid := fun pid => SI.pres_quiet (quiet_kWaitpid pid) (kWaitpid_pres pidLeafW.toLeafK pid)
-  kStateOf := fun pid => SI.pres_quiet (quiet_kStateOf pid) (kStateOf_pres pidLeafW.toLeafK pid)
-  kChildren := fun pid r => SI.pres_quiet (quiet_kChildren pid r) (kChildren_pres pidLeafW.toLeafK pid r)
-  kSleep := fun ms => SI.pres_quiet (quiet_kSleep ms) (kSleep_pres pidLeafW.toLeafK ms)
-  emitEv := fun w t p x => SI.pres_quiet (quiet_emitEv w t p x) (pidLeafW.emitEv w t p x)
-  popPid := fun u p => SI.pres_quiet (quiet_popPid u p) (pidLeafW.popPid u p)
-  bumpHook := fun u h i => SI.pres_quiet (quiet_bumpHook u h i) (pidLeafW.bumpHook u h i)
-  setRc := fun p rc => SI.pres_quiet (quiet_setRc p rc) (pidLeafW.setRc p rc)
-  markBlocked := SI.pres_quiet quiet_markBlocked pidLeafW.markBlocked
+  emit := fun o ho => SI.pres_quiet (squiet_emit o ho) (pidLeafW.emit o)
+  kKill := fun p sg via => SI.pres_quiet (squiet_kKill p sg via) (kKill_pres pidLeafW.toLeafK p sg via)
+  kWaitpid := fun pid => SI.pres_quiet (squiet_kWaitpid pid) (kWaitpid_pres pidLeafW.toLeafK pid)
+  kStateOf := fun pid => SI.pres_quiet (squiet_kStateOf pid) (kStateOf_pres pidLeafW.toLeafK pid)
+  kChildren := fun pid r => SI.pres_quiet (squiet_kChildren pid r) (kChildren_pres pidLeafW.toLeafK pid r)
+  kSleep := fun ms => SI.pres_quiet (squiet_kSleep ms) (kSleep_pres pidLeafW.toLeafK ms)
+  emitEv := fun w t p x => SI.pres_quiet (squiet_emitEv w t p x) (pidLeafW.emitEv w t p x)
+  popPid := fun u p => SI.pres_quiet (squiet_popPid u p) (pidLeafW.popPid u p)
+  bumpHook := fun u h i => SI.pres_quiet (squiet_bumpHook u h i) (pidLeafW.bumpHook u h i)
+  setRc := fun p rc => SI.pres_quiet (squiet_setRc p rc) (pidLeafW.setRc p rc)
+  markBlocked := SI.pres_quiet squiet_markBlocked pidLeafW.markBlocked
 
 attribute [aesop safe apply (rule_sets := [Sg])] siLeafS
 
 @[aesop safe apply (rule_sets := [Sg])]
-theorem freshId_si : Pres SI freshId := SI.pres_quiet quiet_freshId pidLeafX.freshId
+theorem freshId_si : Pres SI freshId := SI.pres_quiet squiet_freshId pidLeafX.freshId
 @[aesop safe apply (rule_sets := [Sg])]
-theorem pushSleeper_si (sl : Sleeper) : Pres SI (pushSleeper sl) := SI.pres_quiet (quiet_pushSleeper sl) (pidLeafX.pushSleeper sl)
+theorem pushSleeper_si (sl : Sleeper) : Pres SI (pushSleeper sl) := SI.pres_quiet (squiet_pushSleeper sl) (pidLeafX.pushSleeper sl)
 @[aesop safe apply (rule_sets := [Sg])]
-theorem pushTop_si (t : TopFut) : Pres SI (pushTop t) := SI.pres_quiet (quiet_pushTop t) (pidLeafX.pushTop t)
+theorem pushTop_si (t : TopFut) : Pres SI (pushTop t) := SI.pres_quiet (squiet_pushTop t) (pidLeafX.pushTop t)
 @[aesop safe apply (rule_sets := [Sg])]
-theorem armTop_si (t : Nat) : Pres SI (armTop t) := SI.pres_quiet (quiet_armTop t) (pidLeafX.armTop t)
+theorem armTop_si (t : Nat) : Pres SI (armTop t) := SI.pres_quiet (squiet_armTop t) (pidLeafX.armTop t)
 @[aesop safe apply (rule_sets := [Sg])]
-theorem finishTop_si (t : Nat) (v : Val) : Pres SI (finishTop t v) := SI.pres_quiet (quiet_finishTop t v) (pidLeafX.finishTop t v)
+theorem finishTop_si (t : Nat) (v : Val) : Pres SI (finishTop t v) := SI.pres_quiet (squiet_finishTop t v) (pidLeafX.finishTop t v)
 @[aesop safe apply (rule_sets := [Sg])]
-theorem topAddCb_si (t : Nat) (cb : TopCb) : Pres SI (topAddCb t cb) := SI.pres_quiet (quiet_topAddCb t cb) (pidLeafX.topAddCb t cb)
+theorem topAddCb_si (t : Nat) (cb : TopCb) : Pres SI (topAddCb t cb) := SI.pres_quiet (squiet_topAddCb t cb) (pidLeafX.topAddCb t cb)
 @[aesop safe apply (rule_sets := [Sg])]
-theorem clearDone_si : Pres SI clearDone := SI.pres_quiet quiet_clearDone pidLeafX.clearDone
+theorem clearDone_si : Pres SI clearDone := SI.pres_quiet squiet_clearDone pidLeafX.clearDone
 @[aesop safe apply (rule_sets := [Sg])]
-theorem setSlot_si (v : Option String) : Pres SI (setSlot v) := SI.pres_quiet (quiet_setSlot v) (pidLeafX.setSlot v)
+theorem setSlot_si (v : Option String) : Pres SI (setSlot v) := SI.pres_quiet (squiet_setSlot v) (pidLeafX.setSlot v)
 @[aesop safe apply (rule_sets := [Sg])]
-theorem setStopping_si : Pres SI setStopping := SI.pres_quiet quiet_setStopping pidLeafX.setStopping
+theorem setStopping_si : Pres SI setStopping := SI.pres_quiet squiet_setStopping pidLeafX.setStopping
 @[aesop safe apply (rule_sets := [Sg])]
-theorem setRestarting_si : Pres SI setRestarting := SI.pres_quiet quiet_setRestarting pidLeafX.setRestarting
+theorem setRestarting_si : Pres SI setRestarting := SI.pres_quiet squiet_setRestarting pidLeafX.setRestarting
 @[aesop safe apply (rule_sets := [Sg])]
-theorem setLoopStop_si (b : Bool) : Pres SI (setLoopStop b) := SI.pres_quiet (quiet_setLoopStop b) (pidLeafX.setLoopStop b)
+theorem setLoopStop_si (b : Bool) : Pres SI (setLoopStop b) := SI.pres_quiet (squiet_setLoopStop b) (pidLeafX.setLoopStop b)
 @[aesop safe apply (rule_sets := [Sg])]
-theorem setSocketEvent_si (b : Bool) : Pres SI (setSocketEvent b) := SI.pres_quiet (quiet_setSocketEvent b) (pidLeafX.setSocketEvent b)
+theorem setSocketEvent_si (b : Bool) : Pres SI (setSocketEvent b) := SI.pres_quiet (squiet_setSocketEvent b) (pidLeafX.setSocketEvent b)
 @[aesop safe apply (rule_sets := [Sg])]
-theorem setSockReady_si (b : Bool) : Pres SI (setSockReady b) := SI.pres_quiet (quiet_setSockReady b) (pidLeafX.setSockReady b)
+theorem setSockReady_si (b : Bool) : Pres SI (setSockReady b) := SI.pres_quiet (squiet_setSockReady b) (pidLeafX.setSockReady b)
 @[aesop safe apply (rule_sets := [Sg])]
-theorem setClosed_si : Pres SI setClosed := SI.pres_quiet quiet_setClosed pidLeafX.setClosed
+theorem setClosed_si : Pres SI setClosed := SI.pres_quiet squiet_setClosed pidLeafX.setClosed
 @[aesop safe apply (rule_sets := [Sg])]
-theorem unregister_si (u : Nat) : Pres SI (unregisterWatcher u) := SI.pres_quiet (quiet_unregister u) (pidLeafX.unregister u)
+theorem unregister_si (u : Nat) : Pres SI (unregisterWatcher u) := SI.pres_quiet (squiet_unregister u) (pidLeafX.unregister u)
 @[aesop safe apply (rule_sets := [Sg])]
-theorem setStatus_si (u : Nat) (st : Status) : Pres SI (setStatus u st) := SI.pres_quiet (quiet_setStatus u st) (pidLeafX.setStatus u st)
+theorem setStatus_si (u : Nat) (st : Status) : Pres SI (setStatus u st) := SI.pres_quiet (squiet_setStatus u st) (pidLeafX.setStatus u st)
 @[aesop safe apply (rule_sets := [Sg])]
-theorem trySetNp_si (u : Nat) (n : Int) : Pres SI (trySetNp u n) := SI.pres_quiet (quiet_trySetNp u n) (pidLeafX.trySetNp u n)
+theorem trySetNp_si (u : Nat) (n : Int) : Pres SI (trySetNp u n) := SI.pres_quiet (squiet_trySetNp u n) (pidLeafX.trySetNp u n)
 @[aesop safe apply (rule_sets := [Sg])]
-theorem setWOpt_si (u : Nat) (c : OptChange) : Pres SI (setWOpt u c) := SI.pres_quiet (quiet_setWOpt u c) (pidLeafX.setWOpt u c)
+theorem setWOpt_si (u : Nat) (c : OptChange) : Pres SI (setWOpt u c) := SI.pres_quiet (squiet_setWOpt u c) (pidLeafX.setWOpt u c)
 @[aesop safe apply (rule_sets := [Sg])]
 theorem emitRep_si (c : String) (i : JVal) (a b d : String) : Pres SI (emitRep c i a b d) :=
-  SI.pres_quiet (quiet_emitRep c i a b d) (pidLeafX.emitRep c i a b d)
+  SI.pres_quiet (squiet_emitRep c i a b d) (pidLeafX.emitRep c i a b d)
 @[aesop safe apply (rule_sets := [Sg])]
-theorem fireSleeper_si (sl : Sleeper) : Pres SI (fireSleeper sl) := SI.pres_quiet (quiet_fireSleeper sl) (pidLeafX.fireSleeper sl)
+theorem fireSleeper_si (sl : Sleeper) : Pres SI (fireSleeper sl) := SI.pres_quiet (squiet_fireSleeper sl) (pidLeafX.fireSleeper sl)
 theorem registerNew_si (w : Watcher) (hw : w.pids = []) : Pres SI (registerNew w) :=
-  SI.pres_quiet (quiet_registerNew w hw) (pidLeafX.registerNew w hw)
+  SI.pres_quiet (squiet_registerNew w hw) (pidLeafX.registerNew w hw)
 @[aesop safe apply (rule_sets := [Sg])]
 theorem spawnAdopt_si (u wid : Nat) : Pres SI (spawnAdopt u wid) :=
-  fun s h => h.of_quiet (pidLeafX.spawnAdopt u wid s h.pid) (quiet_spawnAdopt u wid s h.pid)
+  fun s h => h.of_quiet (pidLeafX.spawnAdopt u wid s h.pid) (squiet_spawnAdopt u wid s h.pid)
 theorem emit_si (o : Obs) (ho : o.isReap = false) : Pres SI (emit o) := siLeafS.emit o ho
 theorem updK_si (f : Kernel → Kernel) (hf : ∀ k, KGMono k (f k)) (hs : ∀ k, KStep k (f k)) : Pres SI (updK f) :=
-  SI.pres_quiet (quiet_updK f hf) (updK_pres pidLeafW.toLeafK f hs)
+  SI.pres_quiet (squiet_updK f hf) (updK_pres pidLeafW.toLeafK f hs)
 
 /-! ### the coroutine heap -/
 
 /-- a change of the coroutine heap only: what continuations know is untouched -/
 theorem Ext.of_heap {s s' : State} (hl : s'.log = s.log) (hb : s'.blocked = s.blocked) (ho : s'.objs = s.objs)
     (hw : s'.ws = s.ws) (hk : s'.k = s.k) : Ext s s' :=
-  (Quiet.of_eq (s' := { s' with frames := s.frames, ready := s.ready }) hl hb ho hw hk rfl rfl).ext |> fun e =>
+  (SQuiet.of_eq (s' := { s' with frames := s.frames, ready := s.ready }) hl hb ho hw hk rfl rfl).ext |> fun e =>
     { log := e.log, blocked := e.blocked, obj := e.obj, hook := e.hook, unl := e.unl, gone := e.gone, reap := e.reap,
       stop := e.stop }
 
